@@ -349,6 +349,35 @@ class X86Model(object):
             raise AnalysisError('_dis MMX/SSE memory-size table for %s is outside the evaluable subset: %s' % (name, e))
         return modr[self.afs.size]
 
+    def dis_digit_reg_rejected(self, modifs, dibs):
+        """Does the /digit branch of _dis return None for a register (mod == 3) r/m operand of this row variant?
+        The guards `if <cond>: return None` of that branch are evaluated with modr = {ad: False}."""
+        from .srcmodel import walk_no_nested
+        if getattr(self, '_digit_guards', None) is None:
+            dis = self.arch.method('x86_mn', '_dis')
+            branch = None
+            for n in walk_no_nested(dis):
+                if isinstance(n, ast.If) and u(n.test).replace(' ', '') == 'afsin[d0,d1,d2,d3,d4,d5,d6,d7]':
+                    branch = n
+            if branch is None:
+                raise AnalysisError('_dis: the /digit branch was not found')
+            self._digit_guards = [st for st in branch.body if isinstance(st, ast.If) and len(st.body) >= 1 and isinstance(st.body[-1], ast.Return)
+                                  and (st.body[-1].value is None or u(st.body[-1].value) == 'None')]
+        afs = self.afs
+        m_ = Obj('m')
+        m_.modifs = dict(modifs)
+        m_.rm = list(dibs)
+        scope = dict(self.env)
+        scope.update({'m': m_, 'dibs': list(dibs), 'modr': {afs.ad: False}, 'x86_afs': afs})
+        ev = Evaluator(scope)
+        for g in self._digit_guards:
+            try:
+                if ev.ev(g.test):
+                    return True
+            except NotConst as e:
+                raise AnalysisError('_dis: /digit rejection guard `%s` is outside the evaluable subset: %s' % (u(g.test)[:60], e))
+        return False
+
     # -- vocabulary
     def decoder_names(self):
         """Mnemonic names the decoder can put in an instruction (cells + special_opcodes renames)."""
